@@ -349,6 +349,8 @@ impl DecayingAcceptanceSampler {
     /// Resets the internal state of this stateful sampler.
     /// After resetting it is just as it was when it was first created.
     pub fn reset(&self) {
+        #[cfg(feature = "verif-hooks")]
+        crate::verif::sched_point("DecayingAcceptanceSampler::reset");
         let mut sample_count = self.sample_count.lock();
         *sample_count = vec![0; self.stake_weighted.validators.len()];
     }
@@ -367,6 +369,8 @@ impl DecayingAcceptanceSampler {
     pub fn sample_one<R: Rng>(&self, rng: &mut R) -> ValidatorIndex {
         for _ in 0..MAX_TRIES_PER_SAMPLE {
             let sample = self.stake_weighted.sample(rng);
+            #[cfg(feature = "verif-hooks")]
+            crate::verif::sched_point("DecayingAcceptanceSampler::sample_one");
             let mut sample_count = self.sample_count.lock();
             let p_reject = sample_count[sample.as_usize()] as f64 / self.max_samples;
             if rng.random::<f64>() >= p_reject {
